@@ -11,7 +11,8 @@
       (contiguous ranges, nothing skipped inside a lifetime or across a restart),
     * `StoreBlock(v)` happens only in a round in which every handler was invoked and returned nil, and `v` is
       never beyond that frontier; a failed handler / unreadable node leaves cursor and store where they were,
-    * every lifetime not configured with `latest` starts at or below the frontier.
+    * every lifetime not configured with `latest` starts at or below the frontier; the frontier is initially the
+      relayer's starting point `gsb` (stored / configured start block), so this binds the FIRST lifetime too.
   `P05` is the predicate the driver evaluates on the history produced by the REAL listeners, block store and chain
   objects. With the `latest` flag a lifetime starts at the head by configuration; the checker re-anchors the
   frontier there (stated in `chkStart`), so nothing is claimed about blocks before that head.
